@@ -70,7 +70,7 @@ class C17(Prop):
             "accepts an append. non-trivial = pairs differing inside a nested container, or with a '/'/'~' key on the path of a "
             "difference, or an array shortened by >= 2; distinct by pair hash")
     ASSUMPTIONS = ["numbers are generated well separated so that tolerance equality and exact equality coincide"]
-    REQUIRED_CLASSES = ["equal_pair", "nested_difference", "escaped_key_in_patch", "array_shortened>=2", "independent", "ownership_flags_variant"]
+    REQUIRED_CLASSES = ["equal_pair", "nested_difference", "escaped_key_in_patch", "array_shortened>=2", "independent", "ownership_flags_variant", "path_length_sweep"]
 
     def budget(self, tier):
         return {"workers": 14, "examples": 900 if tier == "quick" else 20000}
@@ -80,7 +80,36 @@ class C17(Prop):
                                       "edits": st.lists(st.sampled_from(EDITS), max_size=4), "independent": gens.chance(6),
                                       "rseed": st.integers(0, 2 ** 31)})
 
+    def prelude(self, lib, stats, index, nworkers, tier):
+        """every length of the composed pointer from 1 to 300 bytes (add and remove, top level and nested, keys with and
+        without characters that need escaping), partitioned over the workers"""
+        for L in range(1, 301):
+            if L % nworkers != index:
+                continue
+            for shape in range(4):
+                case = {"kind": "pathlen", "len": L, "shape": shape}
+                self.last_write(case)
+                try:
+                    self.run_pathlen(lib, stats, case)
+                except Violation as v:
+                    v.detail = {"case": case}
+                    raise
+
+    def run_pathlen(self, lib, stats, case):
+        L, shape = case["len"], case["shape"]
+        key = (b"k" * L) if shape < 2 else ((b"a/~" * L)[:L])
+        inner_from = ["O", [[key, ["N", 1.0]], [b"x", ["N", 2.0]]]]
+        inner_to = ["O", [[b"x", ["N", 2.0]]]]
+        if shape % 2:
+            inner_from, inner_to = ["O", [[b"p", inner_from]]], ["O", [[b"p", inner_to]]]
+        for frm, to in ((inner_from, inner_to), (inner_to, inner_from)):
+            self.run_case(lib, {"from": frm, "other": to, "edits": [], "independent": True, "rseed": 1, "quiet": True}, stats)
+        stats.cls("path_length_sweep")
+        stats.enumerated_nontrivial += 2
+
     def run_case(self, lib, case, stats):
+        if case.get("kind") == "pathlen":
+            return self.run_pathlen(lib, stats, case)
         rnd = random.Random(case["rseed"])
         frm = case["from"]
         if case["independent"]:
@@ -168,7 +197,7 @@ class C17(Prop):
                 cls.add("array_shortened>=2")
             for c in cls:
                 stats.cls(c)
-            if cls - {"equal_pair"}:
+            if cls - {"equal_pair"} and not case.get("quiet"):
                 stats.nontriv([frm, to], {"from": model.emit_text(frm), "to": model.emit_text(to), "patch": ptext})
         finally:
             for p in (pf, pt, patch, dup):
@@ -177,6 +206,10 @@ class C17(Prop):
             arena.close()
         if lib.ledger_live() != 0:
             raise Violation("blocks left allocated (%d)" % lib.ledger_live(), key="leak")
+        st_ = lib.stats()
+        if st_.foreign_free or (st_.cross_free and lib.ledger_mode() in (0, 1)):
+            raise Violation("a pointer that the allocator never returned (or already released) was released during patch generation/application",
+                            key="foreign-free")
 
 
 PROP = C17()
